@@ -1321,6 +1321,12 @@ pub fn main() -> i32 {
     // a process that dies in between died inside / right after its first spawn call.
     ev::OUT_FD.store(fd, Ordering::SeqCst);
     Ev::new("boot").u("main", sys::gettid() as u64).emit();
+    // The main thread is the watchdog of everything that follows, but it is also the caller of this
+    // first spawn: if spawn itself never returns nobody is left to notice.  SIGALRM (default action:
+    // terminate, also out of a killable wait inside clone) after 8 s, disarmed once the executor runs.
+    unsafe {
+        sc::syscall!(ALARM, 8);
+    }
     sched::LOG_POINTS.store(false, Ordering::SeqCst);
     // executor thread, created by the code under test itself but outside every scenario
     let h = tiny_std::thread::spawn(h_main);
@@ -1333,6 +1339,9 @@ pub fn main() -> i32 {
     }
     while sched::PARTIES[0].tid.load(Ordering::SeqCst) == 0 {
         sys::sleep_us(100);
+    }
+    unsafe {
+        sc::syscall!(ALARM, 0);
     }
     sched::LOG_POINTS.store(true, Ordering::SeqCst);
     calloc::LOG.store(true, Ordering::SeqCst);
